@@ -205,6 +205,21 @@ impl HybridRunner {
         }
     }
 
+    /// Start `Store::wait` in the background; the flag turns true when it returns (= the acknowledgement
+    /// that everything submitted before this call has been flushed).
+    pub fn spawn_wait_flag(&self) -> Arc<std::sync::atomic::AtomicBool> {
+        let flag = Arc::new(std::sync::atomic::AtomicBool::new(false));
+        if let Some(cache) = self.cache.as_ref() {
+            let store = cache.storage().clone();
+            let f2 = flag.clone();
+            self.rt.spawn(async move {
+                store.wait().await;
+                f2.store(true, Ordering::SeqCst);
+            });
+        }
+        flag
+    }
+
     /// `Store::wait`: returns once everything submitted so far has been flushed.
     pub fn wait_flush(&mut self) -> Result<(), String> {
         let Some(cache) = self.cache.as_ref().cloned() else { return Ok(()) };
